@@ -711,9 +711,16 @@ package frugal
 //@   invariant !self.isOpen && self.closeChan != nil ==> cclosed(self.closeChan)   // a closed transport keeps publishing its one cause
 //@ immutable lib.fAdapterTransport.transport, lib.fAdapterTransport.registry
 
+// Open: only "already open" from the underlying transport is tolerated; any other error is returned
+// unchanged and nothing is started.
 //@ func lib.fAdapterTransport.Open(f)
 //@   locals err, e, ok
 //@   ensures result == nil ==> ncalls("lib.fAdapterTransport.readLoop") == 0
+//@   ensures ncalls("thrift.TTransport.Open") <= 1
+//@   ensures ncalls("thrift.TTransport.Open") == 1 && callret("thrift.TTransport.Open", 0, 0) != nil && !(implements(callret("thrift.TTransport.Open", 0, 0), "thrift.TTransportException") && ttype(callret("thrift.TTransport.Open", 0, 0)) == TRANSPORT_EXCEPTION_ALREADY_OPEN) ==> result == callret("thrift.TTransport.Open", 0, 0)
+//@   ensures ncalls("thrift.TTransport.Open") == 1 && callret("thrift.TTransport.Open", 0, 0) == nil ==> result == nil
+//@   ensures ncalls("thrift.TTransport.Open") == 1 && callret("thrift.TTransport.Open", 0, 0) != nil && implements(callret("thrift.TTransport.Open", 0, 0), "thrift.TTransportException") && ttype(callret("thrift.TTransport.Open", 0, 0)) == TRANSPORT_EXCEPTION_ALREADY_OPEN ==> result == nil
+//@   ensures ncalls("thrift.TTransport.Open") == 0 ==> result != nil && ttype(result) == TRANSPORT_EXCEPTION_ALREADY_OPEN
 //@   modifies *
 
 //@ func lib.fAdapterTransport.close(f, cause)
@@ -961,7 +968,12 @@ package frugal
 //@ func lib.NewTFramedTransport(transport)
 //@   ensures result != nil && fresh(result) && result.frameSize == 0
 //@   modifies *
+// The read loop ends the session with the right cause: the peer's EOF is a clean close (nil cause), any
+// other failure closes with that failure as the cause.
 //@ func lib.fAdapterTransport.readLoop(f, closeSignal)
+//@   ensures ncalls("lib.fAdapterTransport.Close") <= 1 && ncalls("lib.fAdapterTransport.close") <= 1
+//@   ensures ncalls("lib.fAdapterTransport.Close") == 1 ==> implements(lastcallret("lib.fAdapterTransport.readFrame", 1), "thrift.TTransportException") && ttype(lastcallret("lib.fAdapterTransport.readFrame", 1)) == TRANSPORT_EXCEPTION_END_OF_FILE
+//@   ensures ncalls("lib.fAdapterTransport.Close") == 0 && ncalls("lib.fAdapterTransport.close") == 1 ==> callarg("lib.fAdapterTransport.close", 0, 1) != nil
 //@   locals framedTransport, frame, err, err, err, ok
 //@   loop 0 invariant framedTransport != nil && fresh(framedTransport)
 //@   modifies *
